@@ -390,7 +390,7 @@ class Runner:
                 out.append((f"g{gi+1}.basis_order.b{b}.k{k1}", "ascending Rayleigh quotients", ray.tolist()))
         return out
 
-    def compare_numeric(self, gi, rtol=1e-8):
+    def compare_numeric(self, gi, rtol=1e-7):
         out = []
         tens = self._tensors[gi]
         ref = self.refs[gi]
@@ -416,10 +416,14 @@ class Runner:
             scale = float(want.abs().max())
             err = float((got - want).abs().max())
             tol = rtol * max(scale, 1e-30)
-            if name.startswith("root") and g["kind"] == "shampoo":
-                tol = 1e-6 * max(scale, 1e-30)   # conditioning of the inverse root; the factor itself is compared tightly
-            if g.get("method") in ("newton", "higher") and (name.startswith("root") or name in ("param", "mom")):
-                tol = 1e-4 * max(scale, 1e-30)   # iterative solvers stop at their own tolerance (1e-6 / 1e-8 residual)
+            if g["kind"] == "shampoo" and (name.startswith("root") or name in ("param", "mom")):
+                # conditioning of the inverse root (rank-deficient factors with a small epsilon and a large exponent put 1e-8-level
+                # noise of the eigendecomposition into the direction); the factor itself is compared tightly
+                tol = 1e-6 * max(scale, 1e-30)
+            if g.get("method") in ("newton", "higher"):
+                # iterative solvers stop at their own tolerance (1e-6 / 1e-8 residual); with coupled weight decay the parameter feeds
+                # back into the gradient, hence into every accumulator
+                tol = 1e-4 * max(scale, 1e-30)
             if not (err <= tol) or not math.isfinite(err):
                 out.append((f"g{gi+1}.value.b{b}.{name}", f"max|.|={scale:.6g}", f"abs err {err:.3e} > {tol:.3e}"))
             elif (name == "param" and self.draw["dtype"] == "float64" and self.draw.get("pdtype", "float64") == "float64"
@@ -451,6 +455,11 @@ def run_behaviour(draw, beh, pt2=None, numeric=True, stop_at_first=True, runner=
             out += [(i + 1,) + tuple(m) for m in mm]
             if stop_at_first:
                 break
+        if r.draw["dtype"] in ("float16", "bfloat16") and any(
+                not bool(torch.isfinite(p.detach().float()).all()) for ps in r.params for p in ps):
+            # a PARAMETER overflowed in a 16-bit dtype (a finite root times a finite gradient can exceed 65504): from here on the
+            # gradients (coupled weight decay) and factors are non-finite for a reason no property speaks about - the run ends here
+            break
     return out, {"cfg": r.abstract, "events": r.trace}
 
 
